@@ -180,6 +180,10 @@ def gendep_specs() -> T.List[Spec]:
             spec.append(Node('G', 'deps', ((h, 'gdepends'),)))
             spec.append(Node(cons[0], cons[1], ((len(spec) - 1, 'src'),)))
             out.append(tuple(spec))
+    # inputs in nested directories with preserve_path_from: (the outputs keep their path below that directory), consumed by build targets
+    for cons in (('E', 'plain'), ('L', 'static'), ('L', 'shared')):
+        out.append((Node('G', 'pp', ()), Node(cons[0], cons[1], ((0, 'src'),))))
+    out.append((Node('G', 'pp', ()), Node('L', 'static', ((0, 'src'),)), Node('E', 'plain', ((1, 'link_with'),))))
     # the build-time product is an executable of this build: named directly, or as what find_program() returns for an overridden name
     for rel in ('gdepends', 'gdepends_prog'):
         for cons in (('E', 'plain'), ('L', 'static')):
@@ -441,6 +445,15 @@ def render(spec: Spec, placement: str = 'root', odd_names: bool = False, with_te
             out.append("gend_%s = generator(sh, output: '@BASENAME@.c', arguments: ['-c', 'cat \"$2\" > /dev/null && cp \"$0\" \"$1\"', "
                        "'@INPUT@', '@OUTPUT@', %s.full_path()], depends: %s)" % (me, dep, dep))
             out.append("%s = gend_%s.process('%s.in', '%s_b.in', '%s_c.in')" % (me, me, me, me, me))
+        elif n.kind == 'G' and n.variant == 'pp':
+            # inputs in nested directories, processed with preserve_path_from: the outputs keep the path below that directory
+            files[d + 'pp/' + me + '/' + me + '.in'] = gen_src_prelude(i) + 'int f%s(void) { return %d; }\n' % (me, value(i))
+            files[d + 'pp/' + me + '/deep/' + me + '_b.in'] = 'int f%s_b(void) { return 1; }\n' % me
+            files[d + me + '_c.in'] = 'int f%s_c(void) { return 2; }\n' % me
+            if not gen_declared[loc]:
+                out.append("gen_%s = generator(cp, output: '@BASENAME@.c', arguments: ['@INPUT@', '@OUTPUT@'])" % loc)
+                gen_declared[loc] = True
+            out.append("%s = gen_%s.process('pp/%s/%s.in', 'pp/%s/deep/%s_b.in', '%s_c.in', preserve_path_from: meson.current_source_dir())" % (me, loc, me, me, me, me, me))
         elif n.kind == 'G':
             files[d + me + '.in'] = gen_src_prelude(i) + 'int f%s(void) { return %d; }\n' % (me, value(i))
             if not gen_declared[loc]:
